@@ -1478,7 +1478,12 @@ private:
                                  ".add_constraints.add_disequation");
     for (auto kv : e) {
       variable_t pivot = kv.second;
-      interval_t i = compute_residual(e, pivot) / interval_t(kv.first);
+      interval_t residual = compute_residual(e, pivot);
+      interval_t i = residual / interval_t(kv.first);
+      // c * pivot != residual excludes the quotient only if the division is exact
+      if (!(i * interval_t(kv.first) == residual)) {
+        continue;
+      }
       if (auto k = i.singleton()) {
         if (!add_univar_disequation(pivot, *k)) {
           // already set to bottom
